@@ -62,6 +62,11 @@ pub trait Policy {
     fn stay_weight(&self) -> u32 {
         3
     }
+    /// A stalled actor is not scheduled while any other actor can run (a slow or stopped
+    /// process that resumes after everybody else is done).
+    fn stalled(&self, _actor: usize, _step: u32) -> bool {
+        false
+    }
     /// Called once after all actors finished (final-state invariants).
     fn finish(&mut self, world: &Arc<World>, events: &[Event]) -> Result<(), Violation>;
 }
@@ -319,6 +324,16 @@ pub fn run<P: Policy>(
         for (i, _) in pend.iter() {
             if Some(*i) != order.first().copied() {
                 order.push(*i);
+            }
+        }
+        if order.len() > 1 {
+            let awake: Vec<usize> = order
+                .iter()
+                .copied()
+                .filter(|a| !policy.stalled(*a, step))
+                .collect();
+            if !awake.is_empty() {
+                order = awake;
             }
         }
         let next = if order.len() == 1 {
